@@ -1,7 +1,7 @@
 (* C19 correspondence evaluator: runs the model `serve` (over the table and shapes translated in this run) on the
    cases the black-box harness executed against the running server and reports the disagreeing case numbers. *)
 From Coq Require Import String List Bool NArith.
-From OG Require Import C19.Model C19.Gen_Routes C19.Privileges.
+From OG Require Import C19.Model C19.Gen_Routes C19.Privileges C19.Gen_Privileges.
 Import ListNotations.
 Open Scope string_scope.
 Open Scope N_scope.
@@ -116,6 +116,11 @@ Definition req_stmt (ty stmt_db : string) : stmt :=
   match required_of model_privs ty stmt_db with Some s => s | None => [RAdmin] end.
 (* a NoPrivileges entry asks for nothing: authorize_database answers true for it, so it is kept as is *)
 Definition req_stmt_nopriv (ty : string) : stmt := req_stmt ty "".
+
+(* the cardinality statements: the rule read off the row translated from the tree under test (today's methods or the
+   repaired ones, see Model.card_rule); a row that is not understood asks for the administrator (shows as disagreement) *)
+Definition card_now (ty : string) (exact : bool) (stmt_db : string) (srcs : list string) : stmt :=
+  match card_rule gen_privs ty exact stmt_db srcs with Some s => s | None => [RAdmin] end.
 
 (* the same with the marker of the statement's case in AuthorizeQueryForRwUser. special: the instance names the account
    "rwuser" (DROP USER / SET PASSWORD) or the database "_internal" (DROP DATABASE) *)
